@@ -266,6 +266,12 @@ def walk(ctx, db, rid='C02.walk'):
                                 bad = bad or ('%s of %s after the node was resumed' % (it.k, p), tr, i)
                             if it.k == 'call' and p == dvar and is_resume(it):
                                 bad = bad or ('node %s resumed twice' % p, tr, i)
+                            if it.k == 'call' and not atomic.is_atomic_call(it):
+                                # a field of the node handed to a function (std::exchange(y->_next, nullptr)) is read and written there
+                                for a_ in it.get('args') or []:
+                                    ap_ = re.sub(r'^(?:move|forward)\((.*)\)$', r'\1', a_.get('path') or '')
+                                    if ap_ != dvar and rooted(ap_, dvar):
+                                        bad = bad or ('%s is handed to %s after the node was resumed' % (ap_, norm(it.get('callee') or '?')), tr, i)
                     if is_resume(it):
                         if it.get('expanded'):
                             inside = (it.get('id'), it.get('depth'))
